@@ -19,8 +19,25 @@ KEYS = ["CDELT1", "CDELT2", "PC1_1", "PC1_2", "PC2_1", "PC2_2", "CRPIX1", "CRPIX
 
 
 class Hdr(dict):
-    def copy(self):
+    """astropy.io.fits.Header stand-in: a dict plus the Header methods a maintainer would plausibly use on it."""
+
+    def copy(self, strip=False):
         return Hdr(self)
+
+    def remove(self, keyword, ignore_missing=False, remove_all=False):
+        if keyword in self:
+            del self[keyword]
+        elif not ignore_missing:
+            raise KeyError("Keyword '%s' not found." % keyword)
+
+    def set(self, keyword, value=None, comment=None, before=None, after=None):
+        self[keyword] = value
+
+    def append(self, card=None, useblanks=True, bottom=False, end=False):
+        self[card[0]] = card[1]
+
+    def cards(self):
+        return list(self.items())
 
 
 class FakeWCS:
